@@ -161,6 +161,11 @@ Definition replace_pos (q : position) (ps : list position) : list position :=
   map (fun p => if p_id p =? p_id q then q else p) ps.
 Definition pool_count (ps : list position) (pool : Z) : nat := length (filter (fun p => p_pool p =? pool) ps).
 
+(* position.go PositionHasActiveUnderlyingLock: the position is linked to a lock and that lock still exists
+   (isLockMature: a lock that is gone - paid out, force-unlocked - no longer binds the position) *)
+Definition pos_locked (s : state) (p : position) : bool :=
+  negb (p_lock p =? 0) && existsb (fun l => l_id l =? p_lock p) (locks s).
+
 (* lp.go WithdrawPosition *)
 Definition withdraw_position (s : state) (owner : addr) (id liq : Z) : res state :=
   match find_pos s id with
@@ -168,7 +173,7 @@ Definition withdraw_position (s : state) (owner : addr) (id liq : Z) : res state
   | Some p =>
     if negb (owner =? p_owner p) then inr EAuth                    (* owner.String() != position.Address *)
     else if liq <? 0 then inr EOther
-    else if negb (p_lock p =? 0) then inr EOther                   (* LockNotMatureError *)
+    else if pos_locked s p then inr EOther                         (* LockNotMatureError *)
     else if p_liq p <? liq then inr EOther                         (* InsufficientLiquidityError *)
     else if liq =? 0 then inr EOther                               (* zero liquidity delta is refused downstream *)
     (* collectIncentives(owner) and UpdatePosition -> validatePositionUpdateById repeat the owner comparison *)
@@ -184,7 +189,7 @@ Definition add_to_position (e : env) (s : state) (owner : addr) (id a0 a1 : Z) :
     if negb (owner =? p_owner p) then inr EAuth
     else if (a0 <? 0) || (a1 <? 0) then inr EOther
     else if (a0 =? 0) && (a1 =? 0) then inr EOther
-    else if negb (p_lock p =? 0) then inr EOther                   (* PositionSuperfluidStakedError *)
+    else if pos_locked s p then inr EOther                         (* PositionSuperfluidStakedError *)
     else
       do s1 <- withdraw_position s owner id (p_liq p);
       if Nat.eqb (pool_count (positions s1) (p_pool p)) 0 then inr EOther   (* AddToLastPositionInPoolError *)
@@ -213,7 +218,7 @@ Definition transfer_one (s : state) (sender recipient : addr) (id : Z) : res sta
   | None => inr EOther
   | Some p =>
     if negb is_gov && negb (p_owner p =? sender) then inr EAuth    (* PositionOwnerMismatchError *)
-    else if negb (p_lock p =? 0) then inr EOther
+    else if pos_locked s p then inr EOther                         (* LockNotMatureError *)
     else if Nat.eqb (pool_count (remove_pos id (positions s)) (p_pool p)) 0 then inr EOther  (* LastPositionTransferError *)
     else inl (set_positions s (replace_pos (mkPos id recipient (p_pool p) (p_liq p) 0 (p_full p)) (positions s)) (next_pos s))
   end.
@@ -521,7 +526,7 @@ Definition sf_add_to_cl_position (e : env) (s : state) (sender : addr) (pid a0 a
   | None => inr EOther
   | Some p =>
     if (a0 <? 0) || (a1 <? 0) then inr EOther
-    else if p_lock p =? 0 then inr EOther                          (* PositionNotSuperfluidStakedError *)
+    else if negb (pos_locked s p) then inr EOther                  (* PositionNotSuperfluidStakedError *)
     else if negb (p_full p) then inr EOther
     else match find_lock s (p_lock p) with
     | None => inr EOther
